@@ -50,11 +50,24 @@ structure Expected where
   nonResponse : Bytes
 deriving Repr, DecidableEq
 
+/-- the number carried by a numeric key (the last one, should it be repeated — `wf` excludes that) -/
+def valueOf (sel : Key → Option Nat) : List Key → Option Nat
+  | [] => none
+  | k :: ks =>
+    match valueOf sel ks with
+    | some n => some n
+    | none => sel k
+
+def selI : Key → Option Nat | .imageId n => some n | _ => none
+def selN : Key → Option Nat | .imageNumber n => some n | _ => none
+def selP : Key → Option Nat | .placementId n => some n | _ => none
+def selX : Key → Option (Bytes × Option Bytes) | .extra k v => some (k, v) | _ => none
+
 def expected (noise : Bytes) (w : Wf) : Expected :=
-  { imageId := w.keys.findSome? fun | .imageId n => some n | _ => none
-    imageNumber := w.keys.findSome? fun | .imageNumber n => some n | _ => none
-    placementId := w.keys.findSome? fun | .placementId n => some n | _ => none
-    extras := w.keys.filterMap fun | .extra k v => some (k, v) | _ => none
+  { imageId := valueOf selI w.keys
+    imageNumber := valueOf selN w.keys
+    placementId := valueOf selP w.keys
+    extras := w.keys.filterMap selX
     message := w.message.getD []
     isOk := w.message == some (asc "OK")
     nonResponse := noise }
@@ -100,26 +113,35 @@ def nodupB : List Bytes → Bool
   | [] => true
   | a :: r => !r.contains a && nodupB r
 
+def sepFree (s : Bytes) : Bool := !s.any fun b => b == 44 || b == 59 || b == 27
+
+/-- one key of a well-formed response: numbers are 32-bit (the protocol's ids); other keys are
+    non-empty UTF-8 names without `,` `;` `=` ESC, values UTF-8 without `,` `;` ESC, and a name
+    `i`/`I`/`p` may only appear without a value (with one it IS the numeric key). -/
+def keyOk : Key → Bool
+  | .imageId n => decide (n < 2 ^ 32)
+  | .imageNumber n => decide (n < 2 ^ 32)
+  | .placementId n => decide (n < 2 ^ 32)
+  | .extra k v =>
+    !k.isEmpty && isUtf8 k && sepFree k && !k.contains 61 &&
+    (match v with
+     | none => true
+     | some v => isUtf8 v && sepFree v && !(k == [105] || k == [73] || k == [112]))
+
+/-- the message: UTF-8 that does not contain the terminator -/
+def msgOk : Option Bytes → Bool
+  | none => true
+  | some m => isUtf8 m && !isInfix [27, 92] m
+
 /-- The responses the property quantifies over. -/
 def wf (w : Wf) : Bool :=
-  -- at most one of each numeric key
-  (w.keys.filter fun | .imageId _ => true | _ => false).length ≤ 1 &&
-  (w.keys.filter fun | .imageNumber _ => true | _ => false).length ≤ 1 &&
-  (w.keys.filter fun | .placementId _ => true | _ => false).length ≤ 1 &&
-  -- extra keys: distinct, non-empty UTF-8 names without the separators, not one of the numeric keys with a value
+  w.keys.all keyOk &&
   nodupB (w.keys.filterMap keyName) &&
-  (w.keys.all fun
-    | .extra k v =>
-      !k.isEmpty && isUtf8 k && !k.any (fun b => b == 44 || b == 59 || b == 61 || b == 27) &&
-      (match v with
-       | none => true
-       | some v => isUtf8 v && !v.any (fun b => b == 44 || b == 59 || b == 27) &&
-                   !(k == asc "i" || k == asc "I" || k == asc "p"))
-    | _ => true) &&
-  -- the message: UTF-8 that does not contain the terminator
-  (match w.message with
-   | none => true
-   | some m => isUtf8 m && !isInfix [27, 92] m)
+  -- at most one of each numeric key
+  decide ((w.keys.filterMap selI).length ≤ 1) &&
+  decide ((w.keys.filterMap selN).length ≤ 1) &&
+  decide ((w.keys.filterMap selP).length ≤ 1) &&
+  msgOk w.message
 
 /-- noise the property allows before a response: it does not contain the introducer -/
 def noiseOk (noise : Bytes) : Bool := !isInfix [27, 95, 71] noise
